@@ -124,6 +124,14 @@ impl OpCode {
     }
 }
 
+#[cfg(feature = "verif")]
+impl OpCode {
+    /// verification hook: operand widths of this opcode
+    pub(crate) fn verif_operands(&self) -> &[usize] {
+        self.operands()
+    }
+}
+
 pub struct Bytecode {
     pub constants: Vec<Object>,
     pub instructions: Vec<u8>,
